@@ -256,7 +256,9 @@ inline void pass(const char *name, int iter)
          nl.add(t == CT_NL_CONT ? 1 : 0);
          nl.n++;
       }
-      else if (pc->IsComment())
+      else if (  pc->IsComment()
+              || t == CT_COMMENT_ENDIF
+              || t == CT_COMMENT_CPP_ENDIF)
       {
          cmt.add_text(pc->GetStr());
       }
